@@ -962,3 +962,244 @@ theorem workedOffC04_run {P : Sketch → Prop} (L : SketchLaws P) {p : Params} (
 
 end Unsync
 end MiniMoka
+
+namespace MiniMoka
+namespace Unsync
+
+open Spec
+
+/-! ### the trace oracle `fitsC03` (C03 part B) -/
+
+/-- The per-window check of `Spec.fitsC03` (`snap, [freq,] ins k v, snap`). -/
+def checkFits (cap : Nat) (ttl tti : Option Nat) (w : Nat → Nat → Nat) (before : Snap)
+    (k v : Nat) (after : Snap) : Bool :=
+  let fresh := !(before.entries.any (fun e => e.key == k))
+  let fits := decide (snapWeight before + w k v ≤ cap)
+  !(fresh && fits) ||
+    (after.entries.any (fun e => e.key == k && e.val == v) &&
+     before.entries.all (fun e => !(entryLiveAt ttl tti after.now none e) ||
+       after.entries.any (fun e' => e'.key == e.key)))
+
+theorem fitsC03_win1 (c : Nat) (ttl tti : Option Nat) (w : Nat → Nat → Nat) (b : Snap)
+    (k0 f k v : Nat) (a : Snap) (rest : Trace) :
+    fitsC03 c ttl tti w
+        ((.snap, .snap b) :: (.freq k0, .freq f) :: (.ins k v, .ok) :: (.snap, .snap a) :: rest) =
+      (checkFits c ttl tti w b k v a && fitsC03 c ttl tti w ((.snap, .snap a) :: rest)) := by
+  conv => lhs; unfold fitsC03
+  rfl
+
+theorem fitsC03_win2 (c : Nat) (ttl tti : Option Nat) (w : Nat → Nat → Nat) (b : Snap)
+    (k v : Nat) (a : Snap) (rest : Trace) :
+    fitsC03 c ttl tti w ((.snap, .snap b) :: (.ins k v, .ok) :: (.snap, .snap a) :: rest) =
+      (checkFits c ttl tti w b k v a && fitsC03 c ttl tti w ((.snap, .snap a) :: rest)) := by
+  conv => lhs; unfold fitsC03
+  rfl
+
+theorem fitsC03_skip (c : Nat) (ttl tti : Option Nat) (w : Nat → Nat → Nat) (x : Op × Obs)
+    (tr : Trace)
+    (h1 : ∀ b k0 f k v a rest, x :: tr ≠
+      (.snap, .snap b) :: (.freq k0, .freq f) :: (.ins k v, .ok) :: (.snap, .snap a) :: rest)
+    (h2 : ∀ b k v a rest, x :: tr ≠ (.snap, .snap b) :: (.ins k v, .ok) :: (.snap, .snap a) :: rest) :
+    fitsC03 c ttl tti w (x :: tr) = fitsC03 c ttl tti w tr := by
+  conv => lhs; unfold fitsC03
+  split
+  · rename_i heq
+    exact absurd heq (h1 _ _ _ _ _ _ _)
+  · rename_i heq
+    exact absurd heq (h2 _ _ _ _ _)
+  · rename_i heq
+    cases heq
+    rfl
+  · rename_i heq
+    cases heq
+
+theorem mem_snapshot_entries {p : Params} {s : UState} {x : EntryView} :
+    x ∈ (snapshot p s).entries ↔ ∃ k e, (k, e) ∈ s.map ∧ x = entryView s (k, e) := by
+  show x ∈ sortBy (·.key) (s.map.map (entryView s)) ↔ _
+  rw [mem_sortBy, List.mem_map]
+  constructor
+  · rintro ⟨⟨k, e⟩, h1, h2⟩; exact ⟨k, e, h1, h2.symm⟩
+  · rintro ⟨k, e, h1, h2⟩; exact ⟨(k, e), h1, h2.symm⟩
+
+/-- Part B across an `insert` of the model: a key that is not resident and whose weight fits
+beside the residents is resident afterwards with its value, and every resident that is
+unexpired at the time of the call is still resident. -/
+theorem insert_checkFits {P : Sketch → Prop} (L : SketchLaws P) {p : Params} (hq : NoQuirks p)
+    (hsm : SmallSketch p) {s : UState} {g : Ghost} (hi : Inv P p s) (hc : Coupled p s g) {c : Nat}
+    (hcap : p.cap = some c) (k v : Nat) :
+    checkFits c p.ttl p.tti p.weigh (snapshot p s) k v (snapshot p (insert p s k v)) = true := by
+  have hi' := insert_inv L hq hsm hi k v
+  have hnow : (insert p s k v).now = s.now := by
+    have h1 := (insert_coupled hq hi hc k v).now
+    have h2 := hc.now
+    simp only [ghostStep] at h1
+    rw [← h1, h2]
+  unfold checkFits
+  rw [snapshot_any hi.inv.struct, snapshot_weight hi.inv]
+  cases hk : AL.get? s.map k with
+  | some e0 => simp
+  | none =>
+    by_cases hfit : s.ws + p.weigh k v ≤ c
+    · obtain ⟨hm1, hm2, _⟩ := maintain_spec hq hi.inv
+      have hnew : AL.get? (maintain p s).map k = none := by
+        cases h : AL.get? (maintain p s).map k with
+        | none => rfl
+        | some e => have := hm2.sub k e h; rw [hk] at this; cases this
+      have hcf : hasEnoughCapacity p (p.weigh k v) (maintain p s).ws = true := by
+        have := maintain_ws_le hq hi.inv
+        simp only [hasEnoughCapacity, hcap, decide_eq_true_eq]
+        omega
+      obtain ⟨⟨e, he, hev⟩, hkeep⟩ := C03B_unsync_aux hq hi k v hnew hcf
+      have hroom : ∀ c', p.cap = some c' → s.ws ≤ c' := by
+        intro c' hc'; rw [hcap] at hc'; cases hc'; omega
+      simp only [Option.isSome_none, Bool.not_false, Bool.true_and, hfit, decide_true, Bool.not_true,
+        Bool.false_or, Bool.and_eq_true]
+      refine ⟨?_, ?_⟩
+      · rw [List.any_eq_true]
+        refine ⟨entryView (insert p s k v) (k, e),
+          mem_snapshot_entries.mpr ⟨k, e, AL.mem_of_get? he, rfl⟩, ?_⟩
+        simp [entryView, hev]
+      · rw [List.all_eq_true]
+        intro x hx
+        obtain ⟨k', e', hmem, rfl⟩ := mem_snapshot_entries.mp hx
+        have hk' := AL.get?_of_mem hi.inv.struct.keysNodup hmem
+        by_cases hlive : entryLiveAt p.ttl p.tti (snapshot p (insert p s k v)).now none
+            (entryView s (k', e')) = true
+        · have hx' : isExpiredEntry p s e' s.now = false := by
+            have hn : (snapshot p (insert p s k v)).now = s.now := hnow
+            rw [hn] at hlive
+            simp only [entryLiveAt, entryView, Bool.and_true, Bool.and_eq_true,
+              Bool.not_eq_true'] at hlive
+            simp only [isExpiredEntry, Bool.or_eq_false_iff]
+            exact hlive
+          have hkept : AL.get? (maintain p s).map k' = some e' := by
+            cases h : AL.get? (maintain p s).map k' with
+            | none =>
+              have := maintain_only_expired hq hi hroom k' e' ⟨hk', h⟩
+              rw [hx'] at this; cases this
+            | some e'' =>
+              have := hm2.sub k' e'' h
+              rw [hk'] at this
+              rw [Option.some.inj this]
+          obtain ⟨e'', he'', _⟩ := hkeep k' e' hkept
+          have hany := snapshot_any hi'.inv.struct (p := p) k'
+          rw [he''] at hany
+          simp only [Bool.or_eq_true]
+          right
+          exact hany
+        · simp [hlive]
+    · simp [hfit]
+
+theorem step_ins {P : Sketch → Prop} (L : SketchLaws P) {p : Params} (hq : NoQuirks p)
+    (hsm : SmallSketch p) {s : UState} (hi : Inv P p s) (k v : Nat) :
+    step p s (.ins k v) = (insert p s k v, .ok) := by
+  have h1 := step_state L hq hsm hi (.ins k v)
+  have h2 := step_obs L hq hsm hi (.ins k v)
+  dsimp only at h1 h2
+  exact Prod.ext h1 h2
+
+theorem step_freq {P : Sketch → Prop} (L : SketchLaws P) {p : Params} (hq : NoQuirks p)
+    (hsm : SmallSketch p) {s : UState} (hi : Inv P p s) (k : Nat) :
+    step p s (.freq k) = (s, .freq (s.sk.frequency (p.hash k))) := by
+  have h1 := step_state L hq hsm hi (.freq k)
+  have h2 := step_obs L hq hsm hi (.freq k)
+  dsimp only at h1 h2
+  exact Prod.ext h1 h2
+
+end Unsync
+end MiniMoka
+
+namespace MiniMoka
+namespace Unsync
+
+open Spec
+
+theorem run_eq_cons {p : Params} {s : UState} {t : List Op} {op : Op} {ob : Obs} {rest : Trace}
+    (h : run p s t = (op, ob) :: rest) :
+    ∃ t', t = op :: t' ∧ rest = run p (step p s op).1 t' := by
+  cases t with
+  | nil => simp [run] at h
+  | cons op' t' =>
+    rw [run_cons] at h
+    injection h with h1 h2
+    injection h1 with h3 _
+    subst h3
+    exact ⟨t', rfl, h2.symm⟩
+
+/-- `fitsC03` accepts every run of the model from a state satisfying the invariant. -/
+theorem fitsC03_run {P : Sketch → Prop} (L : SketchLaws P) {p : Params} (hq : NoQuirks p)
+    (hsm : SmallSketch p) {c : Nat} (hcap : p.cap = some c) :
+    ∀ (n : Nat) (h : List Op), h.length ≤ n → ∀ (s : UState) (g : Ghost), Inv P p s →
+      Coupled p s g → fitsC03 c p.ttl p.tti p.weigh (run p s h) = true := by
+  intro n
+  induction n with
+  | zero =>
+    intro h hl s g _ _
+    have : h = [] := List.eq_nil_of_length_eq_zero (by omega)
+    subst this
+    simp [run, fitsC03]
+  | succ n ih =>
+    intro h hl s g hi hc
+    cases h with
+    | nil => simp [run, fitsC03]
+    | cons op1 t1 =>
+      rw [run_cons]
+      have hi1 := step_inv L hq hsm hi op1
+      have hc1 := (step_coupled L hq hsm hi hc op1).2
+      simp only [List.length_cons] at hl
+      have IH1 := ih t1 (by omega) _ _ hi1 hc1
+      -- the state and ghost after `insert`, and the induction hypothesis from the closing snapshot
+      have tail : ∀ (k v : Nat) (t : List Op), t.length + 1 ≤ n →
+          fitsC03 c p.ttl p.tti p.weigh
+            ((.snap, .snap (snapshot p (insert p s k v))) :: run p (insert p s k v) t) = true := by
+        intro k v t hlen
+        have hi2 := insert_inv L hq hsm hi k v
+        have hc2 := insert_coupled hq hi hc k v
+        have IH2 := ih (.snap :: t) (by simp only [List.length_cons]; omega) _ _ hi2 hc2
+        rw [run_cons, step_snap L hq hsm hi2] at IH2
+        exact IH2
+      by_cases hm1 : ∃ k0 k v t, op1 = .snap ∧ t1 = .freq k0 :: .ins k v :: .snap :: t
+      · obtain ⟨k0, k, v, t, rfl, rfl⟩ := hm1
+        have hi2 := insert_inv L hq hsm hi k v
+        rw [step_snap L hq hsm hi]
+        dsimp only
+        rw [run_cons, step_freq L hq hsm hi]
+        dsimp only
+        rw [run_cons, step_ins L hq hsm hi]
+        dsimp only
+        rw [run_cons, step_snap L hq hsm hi2]
+        dsimp only
+        rw [fitsC03_win1, Bool.and_eq_true]
+        simp only [List.length_cons] at hl
+        exact ⟨insert_checkFits L hq hsm hi hc hcap k v, tail k v t (by omega)⟩
+      · by_cases hm2 : ∃ k v t, op1 = .snap ∧ t1 = .ins k v :: .snap :: t
+        · obtain ⟨k, v, t, rfl, rfl⟩ := hm2
+          have hi2 := insert_inv L hq hsm hi k v
+          rw [step_snap L hq hsm hi]
+          dsimp only
+          rw [run_cons, step_ins L hq hsm hi]
+          dsimp only
+          rw [run_cons, step_snap L hq hsm hi2]
+          dsimp only
+          rw [fitsC03_win2, Bool.and_eq_true]
+          simp only [List.length_cons] at hl
+          exact ⟨insert_checkFits L hq hsm hi hc hcap k v, tail k v t (by omega)⟩
+        · rw [fitsC03_skip, IH1]
+          · intro b k0 f k v a rest heq
+            apply hm1
+            injection heq with h1 h2
+            have hop1 : op1 = .snap := by injection h1
+            obtain ⟨t2, rfl, h3⟩ := run_eq_cons h2
+            obtain ⟨t3, rfl, h4⟩ := run_eq_cons h3.symm
+            obtain ⟨t4, rfl, _⟩ := run_eq_cons h4.symm
+            exact ⟨k0, k, v, t4, hop1, rfl⟩
+          · intro b k v a rest heq
+            apply hm2
+            injection heq with h1 h2
+            have hop1 : op1 = .snap := by injection h1
+            obtain ⟨t2, rfl, h3⟩ := run_eq_cons h2
+            obtain ⟨t3, rfl, _⟩ := run_eq_cons h3.symm
+            exact ⟨k, v, t3, hop1, rfl⟩
+
+end Unsync
+end MiniMoka
